@@ -1,8 +1,11 @@
 package checks
 
 import (
+	"context"
 	"encoding/json"
 	"os"
+	"os/exec"
+	"time"
 
 	api "github.com/xinchentechnote/fin-protoc/verifapi"
 	"verif/engine/internal/core"
@@ -17,6 +20,7 @@ func corpusPrograms(ctx *core.Ctx) []*dsl.Program {
 	out = append(out, dsl.P3()...)
 	out = append(out, dsl.P4()...)
 	out = append(out, dsl.P5()...)
+	out = append(out, dsl.P6()...)
 	out = append(out, dsl.Universal())
 	return out
 }
@@ -41,12 +45,27 @@ func replayText(ctx *core.Ctx, f func(*core.Ctx, Text)) int {
 	return ctx.Finish("exploration", core.Coverage{"evaluations": 1, "distinct_nontrivial": 0, "rule": "replay", "samples": []any{r.Replay.Name}})
 }
 
-// Worker is the subprocess entry point (inputs on stdin, one JSON verdict per line).
-func Worker() {}
-
 // parseText runs the real parser.ParseFile on text (through a scratch file, removed afterwards).
 func parseText(ctx *core.Ctx, text string) (*api.Model, []api.Diag, error) {
 	p := ctx.TempPath(".dsl")
 	defer os.Remove(p)
 	return api.ParseText(p, text)
+}
+
+// readReplay loads a replay artefact into v.
+func readReplay(ctx *core.Ctx, v any) {
+	b, err := os.ReadFile(ctx.Replay)
+	if err != nil {
+		core.HarnessError("replay: %v", err)
+	}
+	if err := json.Unmarshal(b, v); err != nil {
+		core.HarnessError("replay: %v", err)
+	}
+}
+
+// cmdWithTimeout builds a command that is killed after d.
+func cmdWithTimeout(d time.Duration, name string, args ...string) (context.Context, *exec.Cmd) {
+	cctx, cancel := context.WithTimeout(context.Background(), d)
+	_ = cancel
+	return cctx, exec.CommandContext(cctx, name, args...)
 }
